@@ -1,6 +1,7 @@
 #!/usr/bin/env python3
 # verify.py Cxx-a ... : confirm a delivered change myself: applies, builds, passes the tests, demo 0 on clean / !=0 on changed
 import json, os, subprocess, sys, glob, shutil
+ROOT=os.environ.get('SEED_ROOT','/tmp/r9')
 env=dict(os.environ); env['GOFLAGS']='-mod=mod'; env['GOPROXY']='off'
 for k in ('GOWORK','GOTOOLCHAIN','GOSUMDB'): env.pop(k,None)
 def sh(cmd,cwd,timeout=1500):
@@ -14,9 +15,9 @@ def demo_of(d):
     c=glob.glob(d+'/demo*')+glob.glob(d+'/*.sh')
     return os.path.basename(c[0]) if c else None
 def one(cid):
-    d=f'/tmp/r9/out/{cid}'; rec={'id':cid}
+    d=f'{ROOT}/out/{cid}'; rec={'id':cid}
     if not os.path.exists(d+'/patch.diff'): rec['error']='no patch'; return rec
-    w=f'/tmp/r9/vw/{cid}'
+    w=f'{ROOT}/vw/{cid}'
     if os.path.isdir(w): sh(f'git -C /repo worktree remove --force {w}','/')
     sh(f'git -C /repo worktree add -q --detach {w} HEAD','/')
     try:
@@ -42,8 +43,8 @@ def one(cid):
     finally:
         sh(f'git -C /repo worktree remove --force {w}','/')
     return rec
-os.makedirs('/tmp/r9/vw',exist_ok=True); os.makedirs('/tmp/r9/verified',exist_ok=True)
+os.makedirs(ROOT+'/vw',exist_ok=True); os.makedirs(ROOT+'/verified',exist_ok=True)
 for cid in sys.argv[1:]:
     rec=one(cid)
-    json.dump(rec,open(f'/tmp/r9/verified/{cid}.json','w'),indent=1)
+    json.dump(rec,open(f'{ROOT}/verified/{cid}.json','w'),indent=1)
     print(cid,'OK' if rec.get('ok') else 'NOT-OK',{k:v for k,v in rec.items() if k in('applies','build','tests_pass','tests_fail','demo_clean','demo_changed','error')})
